@@ -37,7 +37,7 @@ PROPS["C02"] = dict(
     technique="exhaustive enumeration of the finite configuration x key x header x route x signature matrix on the real code against a reference decision function",
     level_text=("the property's quantifier is a finite matrix; every cell (configured alg x key x key alg attribute x header alg x "
                 "route x signature kind, checker and builder side, both providers) is executed on the real library and compared "
-                "with ref_policy; acceptance is judged one-directionally (accepted => permitted)"),
+                "with ref_policy; acceptance is judged one-directionally (accepted => permitted); header names a number parser would accept (HS 256, HS+256, HS0256 ...) and key's-own-algorithm signatures under header names that are no algorithm"),
     level_note="trusts ref_policy/ref_crypto in the harness (libcrypto primitives on the harness's own PEM keys) and ASan for the crash clause",
     rule=("cells = configured alg (16) x key (absent + pool) x JWK alg attribute x header alg text (33 incl. case variants, prefix, "
           "missing, non-string) x route (setkey, callback key+alg, callback key only, callback alg only, setkey+no-op callback) x "
@@ -135,7 +135,7 @@ PROPS["C15"] = dict(
                 "builder claims and the jwt_t handed to builder and checker callbacks; each history is replayed on a fresh real "
                 "object and every call's return code, value.error, returned value and the resulting whole-object dump are compared "
                 "with ref_map; every second case leaves a stale error code in the jwt_value_t before the call (a caller reusing "
-                "one value); states are merged on the canonical dump, which is all the API can read or write"),
+                "one value); states are merged on the canonical dump, which is all the API can read or write; JSON texts with null-valued members"),
     level_note="ref_map = model_apply() in harness/seq.c (90 lines on jansson containers); merging on the dump is future-equivalent because the map is the only state these calls touch",
     rule=("states = distinct canonical maps reached per receiver; transitions = state x operation (all executed on the real object by "
           "replaying the state's shortest history); evaluations = individual API calls compared with the model; non-trivial = the "
@@ -250,7 +250,7 @@ PROPS["C17"] = dict(
                 "every k = 1..N the k-th request returns NULL.  This is exactly the property's quantifier (any single allocation), "
                 "so bound 1 is the whole space.  Calls are compared in order up to and including the first one that reports failure "
                 "through its documented channel; a differing result without a reported failure is a violation (wrong accept, token "
-                "differs, key differs), as is any crash or sanitizer report; checker scenarios include bad-signature ES/RS/PS/EdDSA tokens"),
+                "differs, key differs), as is any crash or sanitizer report; checker scenarios include bad-signature ES/RS/PS/EdDSA tokens; the harness allocator reports any pointer handed to its free function that it never returned (foreign free)"),
     level_note="allocations inside OpenSSL/GnuTLS do not pass through jwt_set_alloc and are not faulted; jansson's do (by design of jwt_set_alloc)",
     rule=("cases = (scenario, k); evaluations = faulty runs; every case is non-trivial when the fault was delivered (counter "
           "faults_delivered); finding key = innermost libjwt function > callee at the failing allocation | symptom"),
@@ -313,7 +313,7 @@ PROPS["C12"] = dict(
                 "both providers; byte-identical output for HS*, RS*, EdDSA; every C01 mutant the reference calls invalid must be "
                 "rejected by both providers; every depth-3 history over the d=1 edit neighbourhood of the provider names "
                 "(deletions, case flips, substitutions, insertions) and ids -2..12 against the model 'changes only on an exact "
-                "compiled-in name or id'; every JWT_CRYPTO value of the quantifier by re-executing the harness with the variable set; key rotation with certain address reuse (5 algorithm families x 3 key sequences x 8 sign/verify/load provider triples, every round freeing its keyring, builder and checker before the next); every two-step sequence of switch operations after every JWT_CRYPTO start value (re-executed process)"),
+                "compiled-in name or id'; every JWT_CRYPTO value of the quantifier by re-executing the harness with the variable set; key rotation with certain address reuse (5 algorithm families x 3 key sequences x 16 sign/verify/load/free provider quadruples, every round freeing its keyring, builder and checker before the next); every two-step sequence of switch operations after every JWT_CRYPTO start value (re-executed process)"),
     level_note="ES256K/secp256k1 are OpenSSL-only and excluded, as the statement scopes",
     rule=("evaluations = verifications; switching: states = 2 providers, transitions = set_crypto_ops calls compared with the model; "
           "non-trivial = cases that executed a cross-provider comparison"),
@@ -378,7 +378,7 @@ PROPS["C18"] = dict(
                 "and jansson, every OPENSSL_malloc/free call libjwt itself makes and every time() call (about 110 points per thread); every schedule with at most 1 preemption (quick) / "
                 "2 preemptions (thorough, all four algorithms with 2 threads) is executed and each thread's token and verdicts must equal its "
                 "sequential run.  Because the scheduler's hand-offs are happens-before edges, data races are looked for "
-                "separately: the same bodies free-running on 8 threads under ThreadSanitizer; mixed runs give the two threads different algorithms and keys (HS256+EdDSA, EdDSA+ES256, RS256+HS256); an ES256K/secp256k1 configuration (refused throughout under GnuTLS on this tree)"),
+                "separately: the same bodies free-running on 8 threads under ThreadSanitizer; mixed runs give the two threads different algorithms and keys (HS256+EdDSA, EdDSA+ES256, RS256+HS256); an ES256K/secp256k1 configuration (refused throughout under GnuTLS on this tree); each thread's checker expects a different claim (iss / aud)"),
     level_note="scheduling points sit at allocator and clock seams only: a static touched strictly between two adjacent points is visible to the TSan pass only; weak-memory effects are not modelled",
     rule=("states = schedules executed (each a complete execution of the real code); transitions = scheduling decisions taken; "
           "evaluations = executions compared with the sequential results; schedules_with_real_alternation counts those in which "
@@ -403,7 +403,7 @@ PROPS["C20"] = dict(
                 "integers up to +-2^63 incl. hex/octal forms, also as a future exp and a past nbf; 9 boolean spellings; 7 strings): "
                 "the payload must carry strtol()'s value and jwt-verify must accept; key2jwk -> jwk2key for every key of the pool in private and public form (leading-zero EC "
                 "keys included) and oct files of 32-512 bytes, comparing the JWK member by member with the harness's own JWK of "
-                "the same PEM (RFC 7518 fixed-width EC members) and the PEM written back with the original; key2jwk is run on every ordered pair (thorough: triple) of key-file kinds (RSA/EC/OKP private and public PEM, raw) and every position must yield what the file yields alone; lists with empty tokens (blank stdin lines, empty arguments) in every good/bad/empty composition of 2-4 tokens; oct keys ending in LF, CR, CRLF, space, TAB, NUL"),
+                "the same PEM (RFC 7518 fixed-width EC members) and the PEM written back with the original; key2jwk is run on every ordered pair (thorough: triple) of key-file kinds (RSA/EC/OKP private and public PEM, raw) and every position must yield what the file yields alone; lists with empty tokens (blank stdin lines, empty arguments) in every good/bad/empty composition of 2-4 tokens; oct keys ending in LF, CR, CRLF, space, TAB, NUL; options placed after, between and around the tokens"),
     level_note="exit status 0 <=> every token verified is judged against tokens whose validity is known by construction and confirmed one by one",
     rule=("evaluations = tool invocations; cases = one composition family / one spelling combination / one key; non-trivial = cases "
           "whose round trip completed and was compared"),
